@@ -231,7 +231,50 @@ def f32_le(num, den, thr):
     return f(f(num) / f(den)) <= f(thr)
 
 
-def call_snps(groups, indel_entries, fulls, nsamp, k, max_missing, max_indel_kmers=2):
+def ref_index(genome, kg):
+    """positioning.rs extract_genomic_kmers: (k-1)-mer -> the first three `index of the base after it`"""
+    g = "".join(c for c in genome.upper() if not c.isspace())
+    idx = {}
+    for n in range(len(g) - kg + 1):
+        w = g[n:n + kg]
+        if all(c in "ACGT" for c in w):
+            lst = idx.setdefault(w, [])
+            if len(lst) < 3:
+                lst.append(n + kg)
+    return idx, g
+
+
+def most_frequent(votes):
+    cnt = collections.Counter(votes)
+    if not cnt:
+        return None
+    best = max(cnt.values())
+    top = [v for v, c in cnt.items() if c == best]
+    if len(top) > 1 or best < 10:
+        return None
+    return top[0], best
+
+
+def scan_variants(vs, kg, idx):
+    fwd, rev = [], []
+    for (seq, _) in vs:
+        for strand, q in ((fwd, seq), (rev, rc(seq))):
+            for pos in range(len(q) - kg + 1):
+                for position in idx.get(q[pos:pos + kg], []):
+                    strand.append(position - pos)
+    f, r = most_frequent(fwd), most_frequent(rev)
+    if f and r:
+        if f[1] == r[1]:
+            return None
+        return (f[0], "for") if f[1] > r[1] else (r[0], "rc")
+    if f:
+        return f[0], "for"
+    if r:
+        return r[0], "rc"
+    return None
+
+
+def call_snps(groups, indel_entries, fulls, nsamp, k, max_missing, max_indel_kmers=2, ref=None):
     kg = k - 1
     groups = {key: list(vs) for key, vs in groups.items()}
     for key in groups:
@@ -244,6 +287,9 @@ def call_snps(groups, indel_entries, fulls, nsamp, k, max_missing, max_indel_kme
     keys = [key for key in groups if groups[key]]
     keys.sort(key=lambda key: (-(len(groups[key]) / len(groups[key][0][0])), kmer_key(key[0]), kmer_key(key[1])))
     done, cols = set(), []
+    positioned = {}
+    idx = ref_index(ref, kg)[0] if ref is not None else None
+    comp = str.maketrans("ACGT", "TGCA")
     for key in keys:
         if key[0] in indel_entries or rc(key[1]) in indel_entries:
             continue
@@ -273,14 +319,43 @@ def call_snps(groups, indel_entries, fulls, nsamp, k, max_missing, max_indel_kme
                     save.update(tmp)
                     found[p] = "".join(col)
         done.update(save)
-        cols.extend(found.values())
+        if ref is None:
+            cols.extend(found.values())
+        elif found:
+            where = scan_variants(vs, kg, idx)
+            if where is not None:
+                position, orient = where
+                L = len(vs[0][0])
+                for p, col in found.items():
+                    fp = position + (p - kg) if orient == "for" else position + (L - p - kg - 1)
+                    fp &= 0xFFFFFFFF                      # u32 arithmetic
+                    if fp not in positioned:
+                        positioned[fp] = col if orient == "for" else col.translate(comp)
+    if ref is not None:
+        return positioned
     return sorted(cols)
 
 
-def lo_calls(samples, k, max_missing=0.1, maxdepth=4):
+def lo_calls(samples, k, max_missing=0.1, maxdepth=4, ref=None):
     st = lo_stages(samples, k, maxdepth)
     n = len(samples)
     entries, records = process_indels(st["indels_full"], st["fulls"], n, k, max_missing)
-    cols = call_snps(st["groups_full"], entries, st["fulls"], n, k, max_missing)
-    return {"snp_columns": cols, "indel_records": records, "stages": st}
+    cols = call_snps(st["groups_full"], entries, st["fulls"], n, k, max_missing, ref=ref)
+    out = {"indel_records": records, "stages": st}
+    if ref is None:
+        out["snp_columns"] = cols
+        return out
+    # output_snps.rs with a reference: SNPs at positions inside the genome, in order; VCF records; pseudo-genomes
+    g = "".join(c if c in "ATGCN" else "N" for c in ref_index(ref, k - 1)[1])
+    pos = sorted(p for p in cols if p < len(g))
+    out["snp_columns_in_order"] = [cols[p] for p in pos]
+    vcf = []
+    for p in pos:
+        col, r = cols[p], g[p]
+        alts = sorted({c for c in col if c != r and c not in "-N"})
+        gts = ["0" if c == r else "." if c in "-N" else str(alts.index(c) + 1) for c in col]
+        vcf.append((p + 1, r, ",".join(alts), tuple(gts)))
+    out["vcf"] = vcf
+    out["pseudo"] = ["".join(cols[p][i] if p in cols else g[p] for p in range(len(g))) for i in range(n)]
+    return out
 
